@@ -49,6 +49,22 @@ Record bstate := {
   bs_gates : list gate_rec;                            (* in creation order; gr_id = position *)
   bs_conns : list (N * list (N * option Link)) }.      (* gate id -> its connections, slot 0 first *)
 
+Definition state_gates (st : bstate) : list (path * ident * N * N) :=
+  map (fun g => (gr_path g, gr_name g, gr_size g, gr_pos g)) (bs_gates st).
+
+(* reading the simulation: an absolute gate position is (owner path, gate name, position in the cluster);
+   [state_edges] lists, for every gate and every connection slot of it, (this gate, peer gate, link) *)
+Definition gate_pos := (path * ident * N)%type.
+Definition pos_of (st : bstate) (id : N) : gate_pos :=
+  match find (fun g => gr_id g =? id) (bs_gates st) with
+  | Some g => (gr_path g, gr_name g, gr_pos g)
+  | None => ([], [], 0)
+  end.
+Definition id_edges (st : bstate) : list (N * N * option Link) :=
+  flat_map (fun e => map (fun c => (fst e, fst c, snd c)) (snd e)) (bs_conns st).
+Definition state_edges (st : bstate) : list (gate_pos * gate_pos * option Link) :=
+  map (fun e => (pos_of st (fst (fst e)), pos_of st (snd (fst e)), snd e)) (id_edges st).
+
 Definition bs_empty : bstate := {| bs_mods := []; bs_gates := []; bs_conns := [] |}.
 
 Definition P_MODULE_EXISTS : N := 30.     (* raw_ndl: assert!(self.get(path).is_none()) *)
